@@ -828,9 +828,108 @@ def expand_combinators(raw, raws, max_n=40):
     return n
 
 
+def _single_defs(raw):
+    defs = {}
+    for i, b in enumerate(raw['blocks']):
+        for j, s in enumerate(b['stmts']):
+            if s['k'] == 'assign' and not s['place']['p']:
+                defs.setdefault(s['place']['l'], []).append(('stmt', i, j, s))
+        t = b['term']
+        if t['k'] == 'call' and not t['dest']['p']:
+            defs.setdefault(t['dest']['l'], []).append(('call', i, None, t))
+    for k in range(1, raw.get('arg_count', 0) + 1):
+        defs.setdefault(k, []).append(('arg', None, None, None))
+    return {l: d[0] for l, d in defs.items() if len(d) == 1}
+
+
+def fold_enum_eq(raw, raws, max_n=8):
+    """`x == E::V` on a field-less enum (the derived eq written in place: `Eq(discriminant(*a), discriminant(*b))` where b
+    is a constant variant) becomes the `match x { E::V => true, _ => false }` it means, so that it threads like a match."""
+    n = 0
+    for _ in range(max_n):
+        sd = _single_defs(raw)
+
+        def enum_place(l, depth=0):
+            # what a reference local points to: ('const', variant) | ('place', place) | None
+            d = sd.get(l)
+            if d is None or d[0] != 'stmt' or depth > 6:
+                return None
+            rv = d[3]['rv']
+            if rv['k'] == 'use' and rv['op']['k'] in ('copy', 'move') and not rv['op']['place']['p']:
+                return enum_place(rv['op']['place']['l'], depth + 1)
+            if rv['k'] == 'use' and rv['op']['k'] == 'const' and rv['op'].get('promoted') is not None and raws is not None:
+                pb = raws.get('%s::{promoted#%d}' % (rv['op'].get('uneval'), rv['op']['promoted']))
+                if pb and len(pb['blocks']) == 1:
+                    ags = [x for x in pb['blocks'][0]['stmts'] if x['k'] == 'assign' and x['rv']['k'] == 'aggregate']
+                    if len(ags) == 1 and ags[0]['rv'].get('variant') is not None and not ags[0]['rv'].get('ops'):
+                        return ('const', ags[0]['rv']['variant'])
+                return None
+            if rv['k'] == 'ref':
+                pl = rv['place']
+                if pl['p'] == ['deref']:
+                    return enum_place(pl['l'], depth + 1)
+                if not pl['p']:
+                    dd = sd.get(pl['l'])
+                    if dd is not None and dd[0] == 'stmt' and dd[3]['rv']['k'] == 'aggregate' and dd[3]['rv'].get('variant') is not None and not dd[3]['rv'].get('ops'):
+                        return ('const', dd[3]['rv']['variant'])
+                    return ('place', pl)
+            return None
+
+        def side(op):
+            l = _bare(op)
+            for _k in range(4):
+                d = sd.get(l) if l is not None else None
+                if d is None or d[0] != 'stmt':
+                    return None
+                rv = d[3]['rv']
+                if rv['k'] == 'use' and _bare(rv['op']) is not None:
+                    l = _bare(rv['op'])
+                    continue
+                if rv['k'] == 'discr':
+                    pl = rv['place']
+                    if pl['p'] == ['deref']:
+                        return enum_place(pl['l'])
+                    if not pl['p']:
+                        return ('place', pl)
+                return None
+            return None
+        hit = None
+        for i, b in enumerate(raw['blocks']):
+            for j, s in enumerate(b['stmts']):
+                if s['k'] == 'assign' and not s['place']['p'] and s['rv']['k'] == 'binop' and s['rv'].get('op') in ('Eq', 'Ne'):
+                    x, y = side(s['rv']['a']), side(s['rv']['b'])
+                    if x and y and {x[0], y[0]} == {'const', 'place'}:
+                        hit = (i, j, s, x if x[0] == 'place' else y, x if x[0] == 'const' else y)
+                        break
+            if hit:
+                break
+        if not hit:
+            break
+        i, j, s, pl, cv = hit
+        b = raw['blocks'][i]
+        nl = len(raw['locals'])
+        raw['locals'].append({'ty': 'isize', 'adt': None})
+        base = len(raw['blocks'])
+        eq = s['rv']['op'] == 'Eq'
+        line = s.get('line')
+
+        def cst(v):
+            return {'k': 'assign', 'place': copy.deepcopy(s['place']), 'rv': {'k': 'use', 'op': {'k': 'const', 'ty': 'bool', 'text': 'true' if v else 'false', 'bits': '1' if v else '0'}}, 'line': line, 'syn': True}
+        rest = {'cleanup': b['cleanup'], 'stmts': b['stmts'][j + 1:], 'term': b['term']}
+        bt = {'cleanup': b['cleanup'], 'stmts': [cst(eq)], 'term': {'k': 'goto', 'target': base + 2, 'line': line, 'file': raw.get('file'), 'exp': False}}
+        bf = {'cleanup': b['cleanup'], 'stmts': [cst(not eq)], 'term': {'k': 'goto', 'target': base + 2, 'line': line, 'file': raw.get('file'), 'exp': False}}
+        raw['blocks'] += [bt, bf, rest]
+        b['stmts'] = b['stmts'][:j] + [{'k': 'assign', 'place': {'l': nl, 'p': [], 'ty': 'isize'}, 'rv': {'k': 'discr', 'place': copy.deepcopy(pl[1])}, 'line': line, 'syn': True}]
+        b['term'] = {'k': 'switch', 'discr': {'k': 'move', 'place': {'l': nl, 'p': [], 'ty': 'isize'}}, 'targets': [[str(cv[1]), base]], 'otherwise': base + 1,
+                     'line': line, 'file': raw.get('file'), 'exp': False, 'syn': True}
+        n += 1
+    return n
+
+
 def normalize(raw, raws=None):
     """in place; returns (combinator expansions, try expansions, threaded jumps, field reads forwarded)"""
     m = (inline_local_closure_calls(raw, raws) + expand_combinators(raw, raws)) if raws is not None else 0
+    m += fold_enum_eq(raw, raws)
     a = expand_try(raw)
     b = thread_jumps(raw)
     c = propagate_aggregates(raw) if (a or b or m) else 0
